@@ -379,6 +379,13 @@ def gen_struct(r, idx, pool, weird):
     names = uniq_names(r, n, WORDS)
     use_ids = ext == "mutable" and r.random() < 0.5
     messy_ids = use_ids and weird and r.random() < 0.5
+    # explicit ids in arbitrary (also descending) order, far enough apart that the automatic members that
+    # follow each of them ("previous id + 1") stay distinct: the counter is reset several times per struct
+    scrambled = use_ids and not messy_ids and r.random() < 0.7
+    if scrambled:
+        n = r.choice([3, 4, 5, 6, 6])
+    bases = [b * r.choice([50, 50, 1000]) for b in r.sample(range(1, 40), n)]
+    names = uniq_names(r, n, WORDS)
     members = []
     last = -1
     for i in range(n):
@@ -397,6 +404,8 @@ def gen_struct(r, idx, pool, weird):
         if use_ids and r.random() < 0.6:
             if messy_ids:
                 m["id"] = r.randint(0, 6)
+            elif scrambled:
+                m["id"] = bases[i]
             else:
                 last = last + r.choice([1, 1, 2, 5, 10, 1000, 2**20])
                 m["id"] = last
@@ -573,6 +582,18 @@ def corpus_decls():
                     members=[m("a", P("i32"), id=7), m("b", P("u8")), m("c", P("i64"), id=9, key=True)]))
     out.append(dict(kind="struct", rname="Hashed", cname=None, ext="mutable", nested=False, tuple=False,
                     members=[m("color", P("i32"), hashid=True), m("x", P("i32")), m("shapesize", P("i32"), hashid=True)]))
+    # the automatic counter is RESET by a lower explicit id ("previous member's id + 1"): 10,11,5,6,7
+    out.append(dict(kind="struct", rname="Reset", cname=None, ext="mutable", nested=False, tuple=False,
+                    members=[m("a", P("i32"), id=10), m("b", P("i64")), m("c", P("i32"), id=5, key=True),
+                             m("d", P("i64")), m("e", ("string",))]))
+    # several resets, a hashed member in between does not move the counter: 100,101,#,102,20,21,3,4,50,51
+    out.append(dict(kind="struct", rname="Resets", cname=None, ext="mutable", nested=False, tuple=False,
+                    members=[m("a", P("u8"), id=100), m("b", P("u8")), m("h", P("u16"), hashid=True), m("c", P("u8")),
+                             m("d", P("i16"), id=20), m("e", ("opt", P("i16")), optional=True), m("f", P("u32"), id=3),
+                             m("g", P("u32")), m("i", ("vec", P("u8")), id=50), m("j", P("bool"))]))
+    # the same in a tuple struct (every field is treated as optional there)
+    out.append(dict(kind="struct", rname="ResetTup", cname=None, ext="mutable", nested=False, tuple=True,
+                    members=[m("f0", P("i32"), id=7), m("f1", P("i32")), m("f2", P("i32"), id=2), m("f3", P("i32"))]))
     # regression for the fixed class 7 (Vec<i8> is a sequence of int8, 7de5ab3)
     out.append(dict(kind="struct", rname="Bytes", cname=None, ext="final", nested=False, tuple=False,
                     members=[m("a", ("vec", P("i8"))), m("b", ("vec", P("u8"))), m("c", ("arr", P("i8"), 2))]))
